@@ -227,7 +227,9 @@ func checkC18(c *Ctx) {
 				case val == "c:0":
 					nReset++
 					facts := fg.At(in)
-					if !hasCmp(facts, "<=", func(k string) bool { return strings.HasPrefix(k, "builtin len(p0->hs/twins.Generator.leadersPartitions)") }, is(elem)) {
+					if !hasCmp(facts, "<=", func(k string) bool {
+						return strings.HasPrefix(k, "builtin len(p0->hs/twins.Generator.leadersPartitions)")
+					}, is(elem)) {
 						bad = append(bad, p.InstrPos(in)+": reset not under len(leadersPartitions) <= "+shortVal(elem))
 					}
 				default:
